@@ -147,7 +147,61 @@ func c09Lifecycle(c *h.Ctx) {
 		c.Count("lifecycle_rounds", 1)
 		c.Distinct(fmt.Sprintf("lifecycle|new-local-faces=%d", len(fresh)))
 	}
+	c09Retransmit(c, d, prod, waitFor)
 	c09UDPAccept(c, d, prod, waitFor)
+}
+
+// c09Retransmit: the /localhost prefix of the local producer also has a cheaper next hop towards a
+// non-local face (a default route flattened into it). The local consumer's Interest reaches the
+// producer; the producer is slow, the consumer retransmits after the suppression interval: the
+// retransmission must reach the producer as well ("/localhost exchanges always work") and nothing
+// with a /localhost name may ever show up on the non-local face.
+func c09Retransmit(c *h.Ctx, d *c17Daemon, prod *c17Face, waitFor func(*c17Face, enc.Name, bool, *[][]byte) bool) {
+	root, _ := enc.NameFromStr("/localhost/c09p")
+	cp := c17Params(&mgmt.ControlArgs{Name: root, FaceId: u64p(prod.id), Cost: u64p(7)})
+	cq := c17Params(&mgmt.ControlArgs{Name: root, FaceId: u64p(d.peer.id), Cost: u64p(1)})
+	r1 := d.command(d.app, "/localhost/nfd", "rib", "register", &cp, 15*time.Second)
+	r2 := d.command(d.app, "/localhost/nfd", "rib", "register", &cq, 15*time.Second)
+	if r1 == nil || r2 == nil || r1.StatusCode != 200 || r2.StatusCode != 200 {
+		c.Inconclusive("retransmit: route registration got no 200")
+		return
+	}
+	for k := 0; k < c.Pick(2, 12); k++ {
+		id := fmt.Sprintf("lifecycle/retx%d", k)
+		c.Eval(1)
+		name, _ := enc.NameFromStr(fmt.Sprintf("/localhost/c09p/retx%d", k))
+		var prodFrames, peerFrames, appFrames [][]byte
+		det := func() map[string]any { return map[string]any{"commands": d.log[max(0, len(d.log)-6):]} }
+		d.log = append(d.log, fmt.Sprintf("%s: local face %d sends %s; next hops: non-local face %d (cost 1), local producer face %d (cost 7)", id, d.app.id, name, d.peer.id, prod.id))
+		d.send(d.app, name, false)
+		if !waitFor(prod, name, false, &prodFrames) {
+			d.fail("C09:local-localhost-exchange-broken", id, "a /localhost Interest from a local application is not forwarded to the local producer although a cheaper next hop towards a non-local face cannot be used", det())
+			return
+		}
+		time.Sleep(620 * time.Millisecond) // past the 500 ms suppression interval
+		prodFrames = nil
+		prod.tr.TakeFrames()
+		d.log = append(d.log, fmt.Sprintf("%s: retransmission (new nonce) 620 ms later", id))
+		d.send(d.app, name, false)
+		if !waitFor(prod, name, false, &prodFrames) {
+			d.fail("C09:local-localhost-exchange-broken:retransmission", id, "the retransmission of a /localhost Interest by a local application (620 ms after the first, new nonce) did not reach the local producer, which had not answered yet", det())
+			return
+		}
+		if c09Saw(d.peer, name, false, &peerFrames) {
+			d.fail("C09:localhost-interest-to-nonlocal", id, fmt.Sprintf("/localhost Interest %s was transmitted on non-local face %d", name, d.peer.id), det())
+			return
+		}
+		fresh := time.Minute
+		if _, wire, err := makeData(name, &fresh, []byte("late answer")); err == nil {
+			face.VerifRecv(prod.ls, wire)
+			if !waitFor(d.app, name, true, &appFrames) {
+				d.fail("C09:local-localhost-exchange-broken", id, "the local producer's /localhost Data did not reach the local consumer", det())
+				return
+			}
+		}
+		c.Count("localhost_retransmissions", 1)
+		c.Distinct("lifecycle|retransmission")
+	}
 }
 
 // c09UDPAccept: the forwarder's real UDP listener accepts new peers: per round a peer on the
